@@ -109,7 +109,12 @@ class Registry:
         self.lemmas.append(l)
         return l
 
-    def spec(self, name, params, ret, body):
+    def spec(self, name, params, ret, body, concrete=None):
+        if concrete is not None:
+            self.spec_funcs.setdefault('__concrete__', {})[name] = concrete
+        return self._spec(name, params, ret, body)
+
+    def _spec(self, name, params, ret, body):
         """Define a spec function.  body: expression text over the params (may call other spec
         functions), or a python callable(ex, st, *vals) -> Val for built-in helpers."""
         self.spec_funcs[name] = (params, ret, body)
